@@ -182,6 +182,8 @@ def instances(tier):
         for dof in (1, 2):
             out.append(dict(id="per-stage-%s-dof%d" % (nm, dof), kind="stage", cls=nm, dof=dof, budget=b))
             out.append(dict(id="reversible-%s-dof%d" % (nm, dof), kind="reverse", cls=nm, dof=dof, budget=b))
+        for k in ([2] if quick else [1, 2, 3]):
+            out.append(dict(id="reversible-after-rhs-fault%d-%s-dof1" % (k, nm), kind="reverse", cls=nm, dof=1, fault_at=k, budget=b))
         whole = [1] if quick else [1, 2]
         if nm == "BABs9o7HSolver":
             whole = [] if quick else [1]
@@ -319,6 +321,10 @@ class SeparableUf:
         return c.array(out)
 
 
+class RhsFault(Exception):
+    pass
+
+
 def _reverse(c, inst):
     """step(h) then step(-h) returns the start - on ONE integrator object, twice in a row from two different states (the second
     round trip starts at the time the first one ended: cached slopes of the first must not leak into it), and on fresh objects"""
@@ -332,6 +338,20 @@ def _reverse(c, inst):
     c.assume(h != 0)
     rhs = SeparableUf(c, kick)
     shared = _mk(c, cls, n)
+    if inst.get("fault_at"):
+        # history: a step on the shared object was abandoned because the user's rhs raised at its k-th evaluation
+        calls = [0]
+
+        def faulty(tt, yy, **kw):
+            calls[0] += 1
+            if calls[0] == inst["fault_at"]:
+                raise RhsFault("rhs fault at evaluation %d" % calls[0])
+            return rhs(tt, yy, **kw)
+        w0 = c.array([c.real("w%d" % i) for i in range(n)])
+        st, r = run(shared, faulty, t, w0, {}, h)
+        if not (st == "exc" and isinstance(r, RhsFault)):
+            c.check("c10.rhs_exception_propagates", False, info=repr(r)[:200])
+            return
     for trip, tag in enumerate(("y", "z")):
         y0 = c.array([c.real("%s%d" % (tag, i)) for i in range(n)])
         for obj_mode in ("shared", "fresh"):
